@@ -1,4 +1,5 @@
-// Package vsync replaces "sync" in rewritten files.
+// Package vsync replaces "sync" in rewritten files. The surface is deliberately wider than
+// what gomavlib uses today (a later edit may introduce a pool, a Once, a RWMutex ...).
 package vsync
 
 import "github.com/bluenviron/gomavlib/v3/pkg/vmc"
@@ -8,3 +9,141 @@ type Mutex = vmc.Mutex
 
 // WaitGroup is the controlled wait group.
 type WaitGroup = vmc.WaitGroup
+
+// Locker is sync.Locker.
+type Locker interface {
+	Lock()
+	Unlock()
+}
+
+// RWMutex is modelled as a plain mutex (readers exclude each other: fewer behaviours than
+// the real one, never more).
+type RWMutex struct{ m vmc.Mutex }
+
+// Lock locks for writing.
+func (rw *RWMutex) Lock() { rw.m.Lock() }
+
+// Unlock unlocks.
+func (rw *RWMutex) Unlock() { rw.m.Unlock() }
+
+// RLock locks for reading.
+func (rw *RWMutex) RLock() { rw.m.Lock() }
+
+// RUnlock unlocks.
+func (rw *RWMutex) RUnlock() { rw.m.Unlock() }
+
+// RLocker returns a Locker for the read side.
+func (rw *RWMutex) RLocker() Locker { return &rw.m }
+
+// Once runs a function once.
+type Once struct {
+	m    vmc.Mutex
+	done bool
+}
+
+// Do calls f if Do was not called before.
+func (o *Once) Do(f func()) {
+	if vmc.S == nil {
+		if !o.done {
+			o.done = true
+			f()
+		}
+		return
+	}
+	o.m.Lock()
+	defer o.m.Unlock()
+	if !o.done {
+		o.done = true
+		f()
+	}
+}
+
+// Pool is a free list: Get returns the most recently Put item (the real pool may also
+// drop items or hand out older ones; handing back the hottest item is its common behaviour
+// and the one that exposes use-after-Put).
+type Pool struct {
+	New   func() any
+	items []any
+}
+
+// Get takes an item.
+func (p *Pool) Get() any {
+	if n := len(p.items); n > 0 {
+		x := p.items[n-1]
+		p.items = p.items[:n-1]
+		return x
+	}
+	if p.New != nil {
+		return p.New()
+	}
+	return nil
+}
+
+// Put returns an item.
+func (p *Pool) Put(x any) {
+	if x != nil {
+		p.items = append(p.items, x)
+	}
+}
+
+// Map is a mutex-protected map.
+type Map struct {
+	m vmc.Mutex
+	d map[any]any
+}
+
+// Load returns the value stored for a key.
+func (m *Map) Load(k any) (any, bool) {
+	m.m.Lock()
+	defer m.m.Unlock()
+	v, ok := m.d[k]
+	return v, ok
+}
+
+// Store sets the value for a key.
+func (m *Map) Store(k, v any) {
+	m.m.Lock()
+	defer m.m.Unlock()
+	if m.d == nil {
+		m.d = map[any]any{}
+	}
+	m.d[k] = v
+}
+
+// LoadOrStore returns the existing value or stores the given one.
+func (m *Map) LoadOrStore(k, v any) (any, bool) {
+	m.m.Lock()
+	defer m.m.Unlock()
+	if m.d == nil {
+		m.d = map[any]any{}
+	}
+	if old, ok := m.d[k]; ok {
+		return old, true
+	}
+	m.d[k] = v
+	return v, false
+}
+
+// Delete deletes a key.
+func (m *Map) Delete(k any) {
+	m.m.Lock()
+	defer m.m.Unlock()
+	delete(m.d, k)
+}
+
+// Range calls f for every entry (snapshot, deterministic insertion-independent order is not
+// guaranteed by the real one either).
+func (m *Map) Range(f func(k, v any) bool) {
+	m.m.Lock()
+	type kv struct{ k, v any }
+	var l []kv
+	for k, v := range m.d {
+		l = append(l, kv{k, v})
+	}
+	m.m.Unlock()
+	for _, e := range l {
+		if !f(e.k, e.v) {
+			return
+		}
+	}
+}
